@@ -573,3 +573,13 @@ M('c09-record-only-clones', [(LIB, '''    fn induce_panic(&self, error: error::M
         if self.original_instance {
             panic!("{error}");
         }''')], {'C09': r'R09\.recorded', 'C08': r'R08\.[12]'})
+
+# ---- round-4 rule mutants ----------------------------------------------------------------------
+M('r4-info-flag-always', [(MM, '''    let info_set_default_impl = if method.has_default_impl {''', '''    let info_set_default_impl = if method.has_default_impl || trait_info.has_default_impls {''')],
+  {'C07': r'R07\.5', 'C15': r'R15\.1', 'C16': r'R16\.3'})
+M('r4-info-flag-never', [(MM, '''    let info_set_default_impl = if method.has_default_impl {''', '''    let info_set_default_impl = if method.has_default_impl && method.non_generic_mock_entry_ident.is_some() {''')],
+  {'C15': r'R15\.1'})
+M('r4-chain-drop-after-count', [(TD, '''    drop(core::mem::take(&mut unimock.value_chain));
+
+''', ''), (TD, '''    if strong_count > 1 {''', '''    drop(core::mem::take(&mut unimock.value_chain));
+    if strong_count > 1 {''')], {'C18': r'R18\.6', 'C09': r'R09\.pre'})
